@@ -212,4 +212,37 @@ def doPreempt (t : TaskS) : TRes :=
   else ({ t with state := .preempted, pool := none }, none)
 
 end TaskS
+
+/-- The mutating calls of the `Task` API, as data (so that callers can be restricted
+to classes of calls). -/
+inductive TaskCall
+  | release (time : Option Int)
+  | schedule (time : Int) (p : PlacementS)
+  | unschedule
+  | start (time fuzzed : Int)
+  | step (now dt : Int)
+  | finish (time : Option Int)
+  | cancel (time : Int)
+  | preempt
+  | updateRemaining (r : Int)
+
+/-- Calls that never make a task start running (everything except `start`) and do not
+preempt it. -/
+def TaskCall.isBenign : TaskCall → Bool
+  | .start _ _ => false
+  | .preempt => false
+  | _ => true
+
+namespace TaskS
+def call (t : TaskS) : TaskCall → TRes
+  | .release time => t.doRelease time
+  | .schedule time p => t.doSchedule time p
+  | .unschedule => t.doUnschedule
+  | .start time fuzzed => t.doStart time fuzzed
+  | .step now dt => ((t.doStep now dt).1, none)
+  | .finish time => t.doFinish time
+  | .cancel time => t.doCancel time
+  | .preempt => t.doPreempt
+  | .updateRemaining r => t.updateRemaining r
+end TaskS
 end ErdosVerif.Model
